@@ -70,9 +70,14 @@ def run(rep, tier):
             raise AnalysisBroken("%s: expected one call of thread_data::operator(), found %d" % (fn.full, len(run_)))
         rb, ri, rev = run_[0]
         fb = ff.before.get((rb, ri)) or frozenset()
-        valid = ("thrd_stat.is_valid()", True) in fb
-        prev = any(t and a in ("%s::pending == thrd_stat.get_previous()" % TSS, "thrd_stat.get_previous() == %s::pending" % TSS) for a, t in fb)
-        ss = [(b, i, ev) for b, i, ev in fn.all_events() if ev.get("k") == "ctor" and ev.get("rec") == "pika::threads::detail::switch_status" and ev.get("var") == "thrd_stat"]
+        # the guard object is identified by its type (switch_status), not by its name
+        gv = [ev.get("var") for _, _, ev in fn.all_events() if ev.get("k") == "ctor" and ev.get("rec") == "pika::threads::detail::switch_status" and ev.get("var")]
+        if len(set(gv)) != 1:
+            raise AnalysisBroken("%s: expected one switch_status guard object, found %s" % (fn.full, sorted(set(gv))))
+        SS = gv[0]
+        valid = ("%s.is_valid()" % SS, True) in fb
+        prev = any(t and a in ("%s::pending == %s.get_previous()" % (TSS, SS), "%s.get_previous() == %s::pending" % (SS, TSS)) for a, t in fb)
+        ss = [(b, i, ev) for b, i, ev in fn.all_events() if ev.get("k") == "ctor" and ev.get("rec") == "pika::threads::detail::switch_status" and ev.get("var") == SS]
         if valid and prev and ss and precedes_on_all_paths(fn, lambda e: e is ss[0][2], (rb, ri)):
             rep.ok("C01.R1", fn, "task body entered only after switch_status succeeded (is_valid && previous == pending)")
         else:
@@ -82,11 +87,11 @@ def run(rep, tier):
         # R3: the losing edge
         gate = None
         for b, blk in fn.blocks.items():
-            if blk.cond is not None and "thrd_stat.is_valid()" in T(blk.cond) and "get_previous()" in T(blk.cond):
+            if blk.cond is not None and (SS + ".is_valid()") in T(blk.cond) and "get_previous()" in T(blk.cond):
                 gate = blk
         if gate is None:
             for b, blk in fn.blocks.items():
-                if blk.cond is not None and "thrd_stat.is_valid()" in T(blk.cond) or (blk.cond is not None and "thrd_stat.get_previous()" in T(blk.cond)):
+                if blk.cond is not None and (SS + ".is_valid()") in T(blk.cond) or (blk.cond is not None and (SS + ".get_previous()") in T(blk.cond)):
                     gate = blk
         if gate is None:
             rep.bad("C01.R3", fn, loc_of(rev), "no-gate", "no branch on the outcome of the state exchange")
@@ -113,7 +118,7 @@ def run(rep, tier):
         if len(after) != 1 or len(top) != 1:
             raise AnalysisBroken("%s: state_val definitions not found" % fn.full)
         head = {b for b, blk in fn.blocks.items() if blk.cond is not None and T(blk.cond) == "true"}
-        stored = ("thrd_stat.store_state(state)", True) in (ff.before.get(after[0]) or frozenset())
+        stored = any(t and re.match(r"^%s\.store_state\(\w+\)$" % re.escape(SS), a) for a, t in (ff.before.get(after[0]) or frozenset()))
         if not stored:
             rep.bad("C01.R4", fn, fn.loc, "requeue-without-store", "the returned state is acted upon although store_state (the publishing compare-exchange) did not succeed")
         for name, val in sorted(enum.items()):
